@@ -1,6 +1,8 @@
 import PrysmVerif.Model.C11
 import Mathlib.Tactic.SplitIfs
 import Mathlib.Tactic.Ring
+import Mathlib.Data.List.Nodup
+import Mathlib.Data.List.Range
 /-!
 # C11 — the structure of `nm_to_name` (hand model `nameKey`) by class of the order, and its injectivity on the valid orders
 -/
@@ -65,4 +67,49 @@ theorem nameKey_injective (n m n' m' : Int) (h : Valid n m) (h' : Valid n' m')
   rcases nameKey_cases n m h with ⟨_, _, k⟩ | ⟨_, _, k⟩ | ⟨_, _, k⟩ | ⟨_, _, k⟩ | ⟨_, _, k⟩ | ⟨_, _, _, k⟩ | ⟨_, _, _, k⟩ | ⟨_, _, _, k⟩ | ⟨_, _, _, k⟩ <;>
   rcases nameKey_cases n' m' h' with ⟨_, _, k'⟩ | ⟨_, _, k'⟩ | ⟨_, _, k'⟩ | ⟨_, _, k'⟩ | ⟨_, _, k'⟩ | ⟨_, _, _, k'⟩ | ⟨_, _, _, k'⟩ | ⟨_, _, _, k'⟩ | ⟨_, _, _, k'⟩ <;>
   (rw [k, k'] at e; simp only [Prod.mk.injEq] at e; omega)
+
+/-! ### grouping of a coefficient list by `(n, |m|)` -/
+
+theorem mem_firstKeys (l : List (Int × Int)) (k : Int × Int) : k ∈ firstKeys l ↔ ∃ p ∈ l, magangKey p.1 p.2 = k := by
+  induction l with
+  | nil => simp [firstKeys]
+  | cons p rest ih =>
+    simp only [firstKeys, List.mem_cons, List.mem_filter, ih, decide_eq_true_eq, ne_eq, exists_eq_or_imp]
+    constructor
+    · rintro (h | ⟨h, _⟩)
+      · exact Or.inl h.symm
+      · exact Or.inr h
+    · rintro (h | h)
+      · exact Or.inl h.symm
+      · by_cases e : k = magangKey p.1 p.2
+        · exact Or.inl e
+        · exact Or.inr ⟨h, e⟩
+
+theorem firstKeys_nodup (l : List (Int × Int)) : (firstKeys l).Nodup := by
+  induction l with
+  | nil => simp [firstKeys]
+  | cons p rest ih =>
+    simp only [firstKeys, List.nodup_cons]
+    refine ⟨?_, ih.filter _⟩
+    simp [List.mem_filter]
+
+theorem mem_positionsOf (l : List (Int × Int)) (k : Int × Int) (i : Nat) :
+    i ∈ positionsOf l k ↔ ∃ h : i < l.length, magangKey (l[i]).1 (l[i]).2 = k := by
+  unfold positionsOf
+  simp only [List.mem_filter, List.mem_range]
+  constructor
+  · rintro ⟨h, e⟩
+    refine ⟨h, ?_⟩
+    rw [List.getElem?_eq_getElem h] at e
+    simpa using e
+  · rintro ⟨h, e⟩
+    refine ⟨h, ?_⟩
+    rw [List.getElem?_eq_getElem h]
+    simpa using e
+
+theorem positionsOf_sorted (l : List (Int × Int)) (k : Int × Int) : (positionsOf l k).Pairwise (· < ·) := by
+  unfold positionsOf
+  exact List.Pairwise.filter _ List.pairwise_lt_range
+
+
 end Model.C11
